@@ -1103,3 +1103,215 @@ Proof.
     + left. rewrite Hn. reflexivity.
     + right. rewrite Hl. fold (last_empty l). auto.
 Qed.
+
+(** * 8. The uniform statement *)
+
+Lemma bool_eqb_refl a : bool_eqb a a = true. Proof. destruct a; reflexivity. Qed.
+Lemma pi_eqb_refl p : pi_eqb p p = true.
+Proof. unfold pi_eqb. rewrite !Z.eqb_refl. reflexivity. Qed.
+Lemma ts_eqb_refl t : ts_eqb t t = true.
+Proof. unfold ts_eqb. rewrite !Z.eqb_refl. reflexivity. Qed.
+Lemma bytes_eqb_refl a : bytes_eqb a a = true.
+Proof. induction a; cbn [bytes_eqb]; [reflexivity|]. rewrite Z.eqb_refl. exact IHa. Qed.
+Lemma header_eqb_refl h : header_eqb h h = true.
+Proof. unfold header_eqb. rewrite !Z.eqb_refl, !bool_eqb_refl, pi_eqb_refl. reflexivity. Qed.
+Lemma body_eqb_refl bd : body_eqb bd bd = true.
+Proof.
+  destruct bd; cbn [body_eqb]; rewrite ?ts_eqb_refl, ?pi_eqb_refl, ?Z.eqb_refl; try reflexivity.
+  unfold ann_eqb, cq_eqb. rewrite ts_eqb_refl, !Z.eqb_refl. reflexivity.
+Qed.
+Lemma message_eqb_refl m : message_eqb m m = true.
+Proof. unfold message_eqb. rewrite header_eqb_refl, body_eqb_refl, bytes_eqb_refl. reflexivity. Qed.
+Lemma res_eqb_refl r : res_eqb r r = true.
+Proof. destruct r as [m|e]; cbn [res_eqb]; [apply message_eqb_refl | destruct e; reflexivity]. Qed.
+Lemma zz_list_eqb_refl l : list_eqb zz_eqb l l = true.
+Proof.
+  induction l as [|x l IH]; cbn [list_eqb]; [reflexivity|].
+  unfold zz_eqb at 1. rewrite !Z.eqb_refl. exact IH.
+Qed.
+
+Lemma run_local_true b : run_local b = true.
+Proof.
+  unfold run_local. fold (mlen b).
+  destruct (Z.leb_spec 34 (blen b)) as [H34|]; [|reflexivity].
+  destruct (Z.leb_spec (mlen b) (blen b)) as [HL|]; [|reflexivity].
+  set (K := Z.to_nat (Z.max (mlen b) 34)).
+  assert (HK : (34 <= K <= length b)%nat) by (unfold K, blen in *; lia).
+  rewrite (decode_firstn K b) by (unfold K; lia).
+  assert (E : decode (firstn K b ++ local_tail) = decode b).
+  { symmetry. apply decode_local; try assumption. cbv zeta.
+    rewrite Z.max_comm. fold K.
+    assert (HlK : length (firstn K b) = K) by (rewrite firstn_length; lia).
+    rewrite <- HlK at 2. rewrite firstn_app_exact. reflexivity. }
+  rewrite E, res_eqb_refl. reflexivity.
+Qed.
+
+Lemma spec_len_mlen b m : bok b -> decode b = ROk m -> spec_get FmessageLength b = wire_size m.
+Proof.
+  intros Hb Hd. symmetry.
+  apply (decode_spec b m Hb Hd FmessageLength).
+  unfold spec_fields, header_fields. cbn [In app]. tauto.
+Qed.
+
+Lemma reenc_ok_true b m :
+  bok b -> decode b = ROk m -> reenc_ok b (encode_raw m) = true.
+Proof.
+  intros Hb Hd.
+  destruct (reencode b m Hb Hd) as (Hd' & Hlen & Hf).
+  destruct (decode_wf _ _ Hb Hd) as [Hwf Hsz].
+  pose proof (decode_vs_spec b Hb) as Hvb. rewrite Hd in Hvb. destruct Hvb as (_ & _ & Hab & _).
+  pose proof (decode_vs_spec _ (encode_raw_bok m Hwf)) as Hvr. rewrite Hd' in Hvr.
+  destruct Hvr as (_ & _ & Har & _).
+  unfold reenc_ok.
+  rewrite (spec_len_mlen b m Hb Hd), encode_raw_length, Z.eqb_refl.
+  assert (Hall : forallb (same_field b (encode_raw m)) (spec_fields (spec_msg_type b)) = true).
+  { apply forallb_forall. intros f Hin. unfold same_field. apply Z.eqb_eq. apply Hf, Hin. }
+  rewrite Hall, Hab, Har. apply bytes_eqb_refl.
+Qed.
+
+Theorem C04_all b sizes :
+  bok b ->
+  kf_C04 (b, run_C04 b sizes) = 0 ->
+  ok_C04 b (run_C04 b sizes) = true.
+Proof.
+  intros Hb Hkf. unfold ok_C04, run_C04 in *. cbn [o_local o_res fst snd] in *.
+  unfold kf_C04 in Hkf. cbn [o_res fst snd] in Hkf.
+  rewrite run_local_true. cbn [andb].
+  pose proof (decode_vs_spec b Hb) as Hv.
+  destruct (decode b) as [m|e] eqn:Hd.
+  - destruct Hv as (Hwf & Hle & Harea & Hsum).
+    rewrite Hwf, Hsum, zz_list_eqb_refl.
+    destruct (reencode b m Hb Hd) as (Hd' & Hlen & _).
+    rewrite Hd', res_eqb_refl. cbn [andb].
+    pose proof (spec_len_mlen b m Hb Hd) as HL. rewrite HL.
+    pose proof (reenc_ok_true b m Hb Hd) as Hre.
+    assert (Hmain : (if wire_size m <=? 2048
+                     then match probe_of 2048 m with PBytes r => reenc_ok b r | _ => false end
+                     else true) = true).
+    { destruct (Z.leb_spec (wire_size m) 2048); [|reflexivity].
+      unfold probe_of, encode. destruct (Z.ltb_spec 2048 (wire_size m)); [lia|]. exact Hre. }
+    rewrite Hmain. cbn [andb].
+    apply forallb_forall. intros p Hp. apply in_map_iff in Hp as (n & <- & _). cbn [fst snd].
+    unfold probe_of, encode. destruct (Z.ltb_spec n (wire_size m)).
+    + reflexivity.
+    + rewrite Hre. apply andb_true_iff. split; [apply Z.leb_le; assumption | reflexivity].
+  - destruct Hv as [Hn|(Hwf & Hle & ->)].
+    + rewrite Hn. reflexivity.
+    + rewrite Hwf, Hle in Hkf. discriminate.
+Qed.
+
+(** F5: the full statement (without the known-finding hypothesis) is false. *)
+Definition f5_frame : bytes :=
+  encode_raw (mkMsg (header_new 1) (BSync ts_zero) [0; 8; 0; 0]).
+
+Lemma f5_refuted :
+  octets_ok f5_frame = true /\ spec_wellformed f5_frame = true /\
+  decode f5_frame = RErr EBufferTooShort /\
+  ok_C04 f5_frame (run_C04 f5_frame []) = false /\
+  kf_C04 (f5_frame, run_C04 f5_frame []) = 1.
+Proof. vm_compute. repeat split; reflexivity. Qed.
+
+(** [encode_decode] over TLV lists: the serializer's output for a list of
+    TLVs is accepted by the scanner iff the last TLV is not empty. *)
+Definition tlv_wf (t : tlv) : Prop :=
+  0 <= tlv_type t < 65536 /\ bok (tlv_value t) /\ blen (tlv_value t) < 65536 /\
+  blen (tlv_value t) mod 2 = 0.
+Definition encode_tlvs (ts : list tlv) : bytes := concat (map encode_tlv ts).
+Definition last_value_nonempty (ts : list tlv) : Prop :=
+  match rev ts with t :: _ => tlv_value t <> [] | [] => True end.
+
+Lemma encode_tlv_length t : length (encode_tlv t) = (4 + length (tlv_value t))%nat.
+Proof. unfold encode_tlv. rewrite !app_length, !be_encode_length. lia. Qed.
+
+Lemma encode_tlv_bok t : tlv_wf t -> bok (encode_tlv t).
+Proof.
+  intros (_ & Hv & _). unfold encode_tlv.
+  apply bok_app; [apply be_encode_bok|]. apply bok_app; [apply be_encode_bok|exact Hv].
+Qed.
+
+Lemma encode_tlvs_bok ts : Forall tlv_wf ts -> bok (encode_tlvs ts).
+Proof.
+  induction 1 as [|t ts Ht Hts IH]; [constructor|].
+  change (encode_tlvs (t :: ts)) with (encode_tlv t ++ encode_tlvs ts).
+  apply bok_app; [apply encode_tlv_bok; assumption|assumption].
+Qed.
+
+Lemma last_value_nonempty_tail t t' ts :
+  last_value_nonempty (t :: t' :: ts) -> last_value_nonempty (t' :: ts).
+Proof.
+  unfold last_value_nonempty. cbn [rev].
+  destruct (rev ts ++ [t']) as [|x r] eqn:E; [destruct (rev ts); discriminate|].
+  cbn [app]. auto.
+Qed.
+
+Lemma scan_encode_tlvs : forall ts fuel total,
+  Forall tlv_wf ts -> last_value_nonempty ts -> (length (encode_tlvs ts) <= fuel)%nat ->
+  tlvset_scan fuel (encode_tlvs ts) total = ROk (total + length (encode_tlvs ts))%nat.
+Proof.
+  induction ts as [|t ts IH]; intros fuel total Hwf Hlast Hf.
+  - cbn [encode_tlvs map concat length]. rewrite Nat.add_0_r. destruct fuel; reflexivity.
+  - inversion Hwf as [|? ? Ht Hts]; subst.
+    destruct Ht as (Hty & Hv & Hvl & Heven).
+    change (encode_tlvs (t :: ts)) with (encode_tlv t ++ encode_tlvs ts) in *.
+    set (rest := encode_tlvs ts) in *.
+    assert (Hlen : length (encode_tlv t ++ rest) = (4 + length (tlv_value t) + length rest)%nat)
+      by (rewrite app_length, encode_tlv_length; reflexivity).
+    assert (Hbig : (4 < length (encode_tlv t ++ rest))%nat).
+    { rewrite Hlen. destruct ts as [|t' ts'].
+      - unfold last_value_nonempty in Hlast. cbn [rev app] in Hlast.
+        destruct (tlv_value t) as [|x [|y v]]; [contradiction| |cbn [length]; lia].
+        unfold blen in Heven. cbn [length] in Heven. discriminate.
+      - unfold rest. change (encode_tlvs (t' :: ts')) with (encode_tlv t' ++ encode_tlvs ts').
+        rewrite app_length, encode_tlv_length. lia. }
+    destruct fuel as [|fuel]; [lia|].
+    cbn [tlvset_scan]. unfold blen at 1.
+    destruct (Z.ltb_spec 4 (Z.of_nat (length (encode_tlv t ++ rest)))); [|lia].
+    replace (slice 2 2 (encode_tlv t ++ rest)) with (be_encode 2 (blen (tlv_value t))) by reflexivity.
+    rewrite dec_enc_u by (rewrite P2; unfold blen in *; lia).
+    rewrite Heven. change (0 =? 1) with false. cbv iota.
+    unfold blen at 1.
+    destruct (Z.ltb_spec (Z.of_nat (length (encode_tlv t ++ rest))) (4 + blen (tlv_value t)));
+      [unfold blen in *; lia|].
+    unfold blen. rewrite Nat2Z.id.
+    replace (4 + length (tlv_value t))%nat with (length (encode_tlv t)) by apply encode_tlv_length.
+    rewrite skipn_app_exact.
+    rewrite IH.
+    + f_equal. rewrite Hlen. lia.
+    + assumption.
+    + destruct ts as [|t' ts']; [exact I|]. eapply last_value_nonempty_tail; eassumption.
+    + fold rest. lia.
+Qed.
+
+(** The serializer's output for a TLV list whose last value is not empty is
+    accepted unchanged by the scanner ... *)
+Theorem encode_tlvs_accepted ts :
+  Forall tlv_wf ts -> last_value_nonempty ts ->
+  decode_tlvset (encode_tlvs ts) = ROk (encode_tlvs ts).
+Proof.
+  intros Hwf Hlast. unfold decode_tlvset.
+  rewrite scan_encode_tlvs by (auto || lia). cbn [rbind Nat.add]. rewrite firstn_all. reflexivity.
+Qed.
+
+Theorem encode_decode_tlvs h bd ts :
+  wf_header h -> wf_body bd -> Forall tlv_wf ts -> last_value_nonempty ts ->
+  34 + body_size bd + blen (encode_tlvs ts) < 65536 ->
+  decode (encode_raw (mkMsg h bd (encode_tlvs ts))) = ROk (mkMsg h bd (encode_tlvs ts)).
+Proof.
+  intros Hh Hb Hts Hlast Hsz. apply encode_decode. unfold wf_msg; cbn [m_header m_body m_suffix].
+  split; [exact Hh|]. split; [exact Hb|]. split; [split|exact Hsz].
+  - apply encode_tlvs_bok, Hts.
+  - apply encode_tlvs_accepted; assumption.
+Qed.
+
+(** ... and F5: without the hypothesis on the last TLV the statement is false. *)
+Lemma encode_decode_tlvs_refuted :
+  let ts := [mkTlv 8 []] in
+  Forall tlv_wf ts /\
+  wire_size (mkMsg (header_new 1) (BSync ts_zero) (encode_tlvs ts)) = 48 /\
+  decode (encode_raw (mkMsg (header_new 1) (BSync ts_zero) (encode_tlvs ts)))
+    = RErr EBufferTooShort.
+Proof.
+  cbv zeta. split.
+  - constructor; [|constructor]. unfold tlv_wf; cbn [tlv_type tlv_value]. split; [lia|]. split; [constructor|]. split; reflexivity.
+  - split; vm_compute; reflexivity.
+Qed.
